@@ -6,7 +6,7 @@
    Proved: InvB is preserved by EVERY checked operation - typed set, bit set, bit clear, block write (across area borders) and sanitise, accepted
    or refused - and hence by every history of them; under it every value a get delivers satisfies its register's constraint.
    Outside the invariant by construction: registers with the always-failing constraint (their default only validates during initialisation). *)
-From Ufw Require Import Base.Bits Model.RegTable Proof.RegLemmas Proof.RegInitLemmas Proof.RegInvariant Proof.RegMemory Proof.RegBlockInv Proof.RegInitInv.
+From Ufw Require Import Base.Bits Model.RegTable Proof.RegLemmas Proof.RegInitLemmas Proof.RegInvariant Proof.RegMemory Proof.RegBlockInv Proof.RegInitInv Proof.RegSanitise.
 From Coq Require Import Bool Lia.
 Local Open Scope N_scope.
 
@@ -26,7 +26,7 @@ Print Assumptions C05_invariant_established_by_init.
 (* the invariant survives every history of checked operations: typed set, bit set, bit clear, block write, sanitise *)
 Theorem C05_history_invariant_all :
   forall (ops : list op_all) (t : table),
-         InvB t -> defaults_typed t -> Forall (op_all_ok t) ops -> InvB (fold_left run_op_all ops t).
+         InvB t -> RegBlockInv.defaults_typed t -> Forall (op_all_ok t) ops -> InvB (fold_left run_op_all ops t).
 Proof. exact (@history_invariant_all). Qed.
 Print Assumptions C05_history_invariant_all.
 
@@ -34,7 +34,7 @@ Print Assumptions C05_history_invariant_all.
 Theorem C05_history_get_all :
   forall (ops : list op_all) (t : table) (idx : N) (e : entry) (v : rvalue),
          InvB t ->
-         defaults_typed t ->
+         RegBlockInv.defaults_typed t ->
          Forall (op_all_ok t) ops ->
          entry_at (fold_left run_op_all ops t) idx = Some e ->
          reg_get (fold_left run_op_all ops t) idx = (ASuccess, 0, Some v) -> validate false e v = true.
@@ -57,6 +57,43 @@ Theorem C05_sanitise_preserves :
          Forall (fun e : entry => e_default e < 2 ^ tbits (e_type e)) (t_entries t) -> sanitise t = (r, t') -> InvB t'.
 Proof. exact (@sanitise_preserves). Qed.
 Print Assumptions C05_sanitise_preserves.
+
+(* the sanitise clause: from a table satisfying the invariant, through ARBITRARY out-of-band corruption of the stored words, a successful sanitise leads back to the invariant; every register whose (corrupted) content decodes and satisfies its constraint keeps it, every other register holds its default, all touched marks are cleared *)
+Theorem C05_sanitise_after_corruption :
+  forall (t t2 : table) (x : N) (t' : table),
+         InvB t ->
+         defaults_typed t ->
+         corrupted t t2 ->
+         sanitise t2 = (ASuccess, x, t') ->
+         InvB t' /\
+         Forall (fun e' : entry => e_touched e' = false) (t_entries t') /\
+         Forall2 same_entry (t_entries t) (t_entries t') /\
+         (forall (j : nat) (e : entry),
+          nth_error (t_entries t) j = Some e ->
+          entry_words t' e = (if sane t2 e then entry_words t2 e else Some (default_words t e))).
+Proof. exact (@sanitise_after_corruption). Qed.
+Print Assumptions C05_sanitise_after_corruption.
+
+(* the same from any structurally intact table (no assumption about the stored values) *)
+Theorem C05_sanitise_restores :
+  forall (t : table) (x : N) (t' : table),
+         SInv t ->
+         defaults_typed t ->
+         sanitise t = (ASuccess, x, t') ->
+         InvB t' /\
+         Forall (fun e' : entry => e_touched e' = false) (t_entries t') /\
+         Forall2 same_entry (t_entries t) (t_entries t') /\
+         (forall (j : nat) (e : entry),
+          nth_error (t_entries t) j = Some e ->
+          entry_words t' e = (if sane t e then entry_words t e else Some (default_words t e))).
+Proof. exact (@sanitise_restores). Qed.
+Print Assumptions C05_sanitise_restores.
+
+(* what corruption cannot change: flags, byte order, register list, geometry, word width *)
+Theorem C05_corruption_keeps_structure :
+  forall t t2 : table, SInv t -> corrupted t t2 -> SInv t2.
+Proof. exact (@corrupted_sinv). Qed.
+Print Assumptions C05_corruption_keeps_structure.
 
 (* the invariant survives every history of checked typed operations with well-typed operands *)
 Theorem C05_history_invariant :
